@@ -834,3 +834,5 @@ func (g *GA) posOf(n *peg.Node) string {
 	}
 	return "grammar/grammar.go"
 }
+
+type pegNode = peg.Node
